@@ -372,6 +372,7 @@ def run_sched(cfg: Cfg, c: Ctx) -> Any:
         shared = c.int("p_shared") if cfg.sym_prio else 0
         prio = {l: shared for l in labels}
     wrapped: Optional[str] = None
+    inner_flag = False
     if cfg.nested:
         k = c.choose(N + 1, "nested")
         if k:
@@ -454,6 +455,18 @@ def run_sched(cfg: Cfg, c: Ctx) -> Any:
         }
         arity = (1 if (sel[0] != "root" and dbg is None) else 0) + len(deps[wrapped])
         sub_fn = subs[arity]
+        if wrapped in act and c.choose(2, "inner_flag"):
+            # the flag enters the nested DAG as an argument and is applied (indexed or not) to the node inside it
+            inner_flag = True
+            pick = (lambda f: f[0]) if act_indexed else (lambda f: f)
+            sub_fn = {
+                0: lambda f: inner_xn(twz_active=pick(f)),
+                1: lambda a, f: inner_xn(a, twz_active=pick(f)),
+                2: lambda a, b, f: inner_xn(a, b, twz_active=pick(f)),
+                3: lambda a, b, c_, f: inner_xn(a, b, c_, twz_active=pick(f)),
+                4: lambda a, b, c_, d_, f: inner_xn(a, b, c_, d_, twz_active=pick(f)),
+            }[arity]
+            c.cover("w_inner_flag")
         sub_fn.__name__ = sub_fn.__qualname__ = "sub"
         callers[wrapped] = dag(sub_fn)
     kwname = "kw"
@@ -471,9 +484,11 @@ def run_sched(cfg: Cfg, c: Ctx) -> Any:
         for l in labels:
             args, kw = call_shape(l, x, r)
             if l in act:
-                kw["twz_active"] = x if act[l] == "IN" else r[act[l]]
-                if act_indexed:
-                    kw["twz_active"] = kw["twz_active"][0]
+                flag = x if act[l] == "IN" else r[act[l]]
+                if l == wrapped and inner_flag:
+                    args = args + [flag]
+                else:
+                    kw["twz_active"] = flag[0] if act_indexed else flag
             r[l] = callers[l](*args, **kw)
         return tuple(r[l] for l in labels)
 
